@@ -661,6 +661,16 @@ class Inliner:
                     except NotInlinable as e:
                         self._site(r[0], False, str(e))
                         return [s]
+        # `if a and helper(...): S` (no else): the helper is only evaluated when `a` holds — write the nesting out so
+        # that the call can be hoisted inside it
+        if isinstance(s, ast.If) and not s.orelse and isinstance(s.test, ast.BoolOp) and isinstance(s.test.op, ast.And) and len(s.test.values) >= 2:
+            later = s.test.values[1:]
+            if any(self.resolve(c, fi) is not None for v in later for c in ast.walk(v) if isinstance(c, ast.Call)):
+                first = s.test.values[0]
+                rest = later[0] if len(later) == 1 else ast.copy_location(ast.BoolOp(op=ast.And(), values=later), s.test)
+                inner = ast.copy_location(ast.If(test=rest, body=s.body, orelse=[]), s)
+                outer = ast.copy_location(ast.If(test=first, body=self.rewrite_stmt(inner, fi, names, depth), orelse=[]), s)
+                return [outer]
         # a call nested in a simple statement / an if test: hoist it
         holder = None
         if isinstance(s, (ast.Expr, ast.Assign, ast.AnnAssign, ast.AugAssign, ast.Return)) and getattr(s, "value", None) is not None:
